@@ -241,6 +241,39 @@ theorem C19_too_large_rejected (reg : List Entry) (maxMsg : Nat) (bs : Bytes)
   have : ¬ bs.length < 2 := by omega
   simp [fromVec, this, h]
 
+/-! ### no 16-bit cap on u32-prefixed parts
+
+`wf` bounds a `WithSize` content and a `LargeOctets` only by `MAX_VEC_SIZE` (4 000 000), never by 2^16;
+the only other bound is the message frame.  So PSBTs / transactions / proofs of 65 536 bytes and more
+are inside the domain of `Wire_roundtrip` / `C19_full`. -/
+
+theorem C19_wf_withSize_leaf (l : Leaf) (a : α) :
+    wf L (.withSize (.leaf l)) (.leaf a) = true ↔ (L.ok l a = true ∧ (L.ser a).length ≤ MAX_VEC_SIZE) := by
+  simp only [wf, enc, Bool.and_eq_true]
+  constructor
+  · intro ⟨h1, h2⟩; exact ⟨h1, of_decide_eq_true h2⟩
+  · intro ⟨h1, h2⟩; exact ⟨h1, decide_eq_true h2⟩
+
+theorem C19_wf_largeOctets (b : Bytes) :
+    wf L .largeOctets (.bytes b) = true ↔ b.length ≤ MAX_VEC_SIZE := by
+  simp [wf]
+
+/-- SignWithdrawalReply {psbt: WithSize<PsbtWrapper>} (id 107): EVERY valid PSBT that fits the message
+    frame (131072 - 2 - 4 bytes, i.e. far beyond 65535) decodes from its own encoding. -/
+theorem C19_large_psbt_reply (hL : L.RT) (a : α) (hok : L.ok .psbt a = true)
+    (hlen : (L.ser a).length + 6 ≤ maxMessageSize) :
+    fromVec L registry maxMessageSize (asVec L (entryAt (idxOfId 107)) (.leaf a))
+      = .ok (.msg (idxOfId 107) (.leaf (L.norm a))) := by
+  have hget : registry[idxOfId 107]? = some (entryAt (idxOfId 107)) := by
+    have hlt : idxOfId 107 < registry.length := by decide +kernel
+    simp [entryAt, List.getD, List.getElem?_eq_getElem hlt]
+  have hty : (entryAt (idxOfId 107)).ty = .withSize (.leaf .psbt) := by decide +kernel
+  have hmax : maxMessageSize ≤ MAX_VEC_SIZE := by decide
+  have h := C19_full L hL (idxOfId 107) (entryAt (idxOfId 107)) (.leaf a) hget
+    (by rw [hty, C19_wf_withSize_leaf]; exact ⟨hok, by omega⟩)
+    (by simp [asVec, hty, enc, beBytes_length]; omega)
+  simpa [Val.norm] using h
+
 /-! ### StreamedPSBT -/
 open Streamed
 
